@@ -399,7 +399,7 @@ def mon_C01(case):
         ack = None
         if pubt:
             acks = [f for sid, f in ln.frames if sid == w[1] and f.startswith("ctrl 202 ")]
-            if acks:
+            if acks and "seq" in frame_kv(acks[0]):       # (`sys` while it is not loaded: acknowledged by the hub without a number)
                 ack = int(frame_kv(acks[0])["seq"])
         # numbers shown in this line
         for sid, f in ln.frames:
@@ -500,8 +500,12 @@ def mon_C02(case):
         datas = [(sid, f) for sid, f in ln.frames if f.startswith("data ")]
         if not acks:
             continue
+        if t == "sys" and "seq" not in frame_kv(acks[0]):
+            continue            # the system topic is not loaded: the hub acknowledges and drops the message (nobody is to learn which names exist)
         q = int(frame_kv(acks[0])["seq"])
         c = pre.cache.get(t) if pre else None
+        if pre is None and t == "sys":
+            continue            # the first request of the history: `sys` is loaded from the start
         if c is None or act is None:
             out.append((i, f"C02 publish to {t} acknowledged although the topic was not loaded before the request"))
             continue
@@ -616,6 +620,17 @@ def mon_C03(case):
         why = "the session is not attached"
         if act is None:
             why = "the session may not act for another user"
+        elif t == "sys":
+            # the system topic accepts any logged-in author without attachment (and without a subscription)
+            if c is None:
+                ok = bool(acks) and not any("seq=" in f for f in acks)      # not loaded: acknowledged by the hub, nothing happens
+                why = "the system topic is not loaded"
+                if ok and not ln.calls and state_of(ln) == state_of(pre):
+                    continue
+            elif c["inactive"]:
+                why = "the topic is suspended or being deleted"
+            else:
+                ok = True
         elif attached and c is not None:
             u = c["users"].get(act[0])
             if c["inactive"]:
@@ -633,7 +648,7 @@ def mon_C03(case):
         faulted = i > 0 and case.ops[i - 1].split(" ")[0] in ("fail", "crash") or (i > 1 and case.ops[i - 2].startswith("fail"))
         if acks and not ok:
             out.append((i, f"C03 publish to {t} by {act[0] if act else '?'} accepted although {why}"))
-        if acks and pre.store.get(t, {}).get("state") == 10:
+        if acks and pre.store.get(t, {}).get("state") == 10 and t != "sys":      # (initTopicSys does not read the state: the record of `sys` is marked along with the p2p topics of a suspended subscriber)
             out.append((i, f"C03 [susp-reload] publish to {t} accepted although the topic is suspended (the account of its owner or of a participant is)"))
         if ok and w[1] in case.logged_out(i):
             # the session has been logged out by the server: 401 is the answer to whatever it sends
@@ -675,8 +690,8 @@ def mon_C06(case):
         pre = prev_state(case, i)
         act = case.actor(w) if w[0] not in ("restart", "unload") and len(w) > 1 else None
         for t, row in ln.store.items():
-            if row["state"] == 20 or t.startswith("P:"):
-                continue               # a peer-to-peer topic has two equal participants and no owner
+            if row["state"] == 20 or t.startswith("P:") or t == "sys":
+                continue               # a peer-to-peer topic has two equal participants and no owner; the system topic has none either
             ow = owners_of(row)
             prow = pre.store.get(t) if pre else None
             pow_ = owners_of(prow) if prow and prow["state"] != 20 else None
@@ -696,7 +711,7 @@ def mon_C06(case):
         if pre is not None and act is not None and len(w) > 2:
             t = w[2]
             prow = pre.store.get(t)
-            if prow is not None and prow["state"] != 20 and not t.startswith("P:"):
+            if prow is not None and prow["state"] != 20 and not t.startswith("P:") and t != "sys":
                 pow_ = owners_of(prow)
                 row = ln.store.get(t)
                 gone = row is None or row["state"] == 20
@@ -824,6 +839,8 @@ def mon_C08(case):
         pre = prev_state(case, i)
         for t, c in ln.cache.items():
             row = ln.store.get(t)
+            if t == "sys":
+                row = dict(row, auth=c["auth"], anon=c["anon"]) if row is not None else None      # (initTopicSys: the default access of `sys` is W/W whatever is stored)
             if c["inactive"]:
                 continue
             if row is None:
@@ -1431,8 +1448,8 @@ def mon_C10_me(case):
             if own is None or not has(eff(own["want"], own["given"]), "P"):
                 continue            # without P on the own `me` nothing is passed on to this user's sessions
             for key, row in ln.store.items():
-                if row["state"] == 20 or key in phantom:
-                    continue
+                if row["state"] == 20 or key in phantom or key == "sys":
+                    continue        # (the system topic makes no announcements)
                 mine = row["subs"].get(ou)
                 if mine is None or mine["deleted"] or not has(eff(mine["want"], mine["given"]), "P") or \
                         not has(eff(mine["want"], mine["given"]), "J"):
@@ -1757,10 +1774,15 @@ def mon_C19_fnd(case):
     out = []
     import json as _json
     susp = {u: v.get("susp", False) for u, v in case.users.items()}
+    curtags = {u: list(v["tags"]) for u, v in case.users.items()}
     for i, (o, ln) in enumerate(zip(case.ops, case.lines)):
         w = o.split(" ")
-        if w[0] == "userstate" and len(w) > 2:
+        if w[0] == "userstate" and len(w) > 2 and ln.plain is None:
             susp[w[1]] = w[2] == "susp"
+        if ln.plain is None:
+            # the tags an account is found by are the ones its `me` topic holds after the last acknowledged {set tags}
+            for x, cm in ln.me.items():
+                curtags[x] = [t for t in (cm["tags"] or "").strip("[]").split(",") if t]
         if ln.plain is not None or len(w) < 3:
             continue
         sid = w[1]
@@ -1788,7 +1810,7 @@ def mon_C19_fnd(case):
             allq = set(req) | set(opt)
             lvl = case.sess[sid]["lvl"]
             masked = [t for t in allq if ":" in t and t.split(":")[0] in MASKED_NS]
-            if masked and any(t not in case.users[u]["tags"] for t in masked) and not mine[0].startswith("ctrl 4"):
+            if masked and any(t not in curtags.get(u, []) for t in masked) and not mine[0].startswith("ctrl 4"):
                 out.append((i, f"C19 [masked] {u} searched by {masked}, tags of a masked namespace which {u} does not carry, and was answered `{mine[0][:60]}`"))
                 continue
             if not mine[0].startswith(("meta fnd sub[", "ctrl 204 ")):
@@ -1801,9 +1823,12 @@ def mon_C19_fnd(case):
                     shown[name] = [x.strip('"') for x in m.group(1).split(",")] if m and m.group(1) else []
             # what ought to be shown
             cand = {}
+            dels = case.deletions()
+            gone = {du: hard for k, (du, hard) in dels.items() if k < i}
             for x, v in case.users.items():
-                if x != u and not v.get("missing"):
-                    cand[x] = (v["tags"], susp.get(x, False))
+                if x != u and not v.get("missing") and not gone.get(x, False):
+                    # (a soft-deleted account keeps its row: hidden from everybody but root, like a suspended one)
+                    cand[x] = (curtags.get(x, v["tags"]), susp.get(x, False) or x in gone)
             for t, row in ln.store.items():
                 if t.startswith("P:"):
                     continue
@@ -1829,11 +1854,27 @@ def mon_C19(case):
     """the tags stored with a topic: normalised (lower case, sorted, no duplicates, 2..96 characters, first character a letter or a
     digit), changed only by a {set tags} of the owner, and never gaining or losing a tag of the immutable namespace `basic:`"""
     out = mon_C19_fnd(case)
+    acct = {u: list(v["tags"]) for u, v in case.users.items()}     # the tags of every account as last seen on its `me` topic
     for i, (o, ln) in enumerate(zip(case.ops, case.lines)):
         if ln.plain is not None:
             continue
         w = o.split(" ")
         pre = prev_state(case, i)
+        # … and the tags of an account (shown by its `me` topic while it is loaded): the same rules, changed only by the account itself
+        for u, cm in ln.me.items():
+            tags = [x for x in (cm["tags"] or "").strip("[]").split(",") if x]
+            ptags = acct.get(u, [])
+            if tags == ptags:
+                continue
+            acct[u] = tags
+            if tags != sorted(set(tags)) or any(x != x.lower().strip() or not (2 <= len(x) <= 96) or not x[0].isalnum() for x in tags):
+                out.append((i, f"C19 tags of the account {u} are stored as {tags}: not normalised"))
+            imm = lambda l: sorted(x for x in l if x.startswith("basic:"))
+            if imm(tags) != imm(ptags):
+                out.append((i, f"C19 tags of the immutable namespace of the account {u} changed from {imm(ptags)} to {imm(tags)} by `{w[0]}`"))
+            act = case.actor(w) if len(w) > 1 else None
+            if not (w[0] == "settags" and len(w) > 2 and w[2] == "me" and act is not None and act[0] == u):
+                out.append((i, f"C19 tags of the account {u} changed from {ptags} to {tags} by `{w[0]}` of {act[0] if act else '?'}"))
         for t, row in ln.store.items():
             tags = [x for x in (row["tags"] or "").strip("[]").split(",") if x]
             prow = pre.store.get(t) if pre else None
